@@ -17,6 +17,14 @@ RULE = ("Schema trees built by reflection over the real field table with subsche
         "json.RawMessage, *Schema, typed maps / slices, json.Number, sized integers; descriptor member `goextra`): Extra is shared by "
         "the clone, so both marshal to the same bytes whatever it holds. "
         "Non-trivial: >= 3 Schema objects; distinct = operation text")
+RULE += (". Widened (3 operations per run, op clone-go with `tail`): trees built in memory that are nested deeper than any JSON document "
+         "encoding/json reads or writes (its limit is 10 000 levels) — one chain of 1 500..4 000, one of 10 001..10 900 and one of "
+         "11 000..12 500 Schema objects through every kind of schema-holding field, with a small bushy subtree at the bottom. Marshal of "
+         "such a tree is refused by encoding/json (and quadratic in the depth), and the driver's model of Marshal has no nesting limit, so "
+         "these are NOT sent to the model: they are judged by the direct oracle of the statement alone — no Schema object shared at any "
+         "depth (reflect walk of both trees), same number of objects and same shape, {allOf:[s, clone]} resolves iff {allOf:[s]} does, the "
+         "subtrees rooted in the deepest 40 levels marshal to the same bytes in both, and keep doing so in the original after every "
+         "Schema object of the clone was assigned to")
 
 
 def gen(rng, tier, n):
@@ -39,6 +47,22 @@ def gen(rng, tier, n):
             else:
                 nodes.append({rng.choice(maps): [["k", child]]})
         ops.append({"op": "clone", "args": {"desc": {"nodes": nodes, "root": len(nodes) - 1}}, "meta": {"facts": {"n": depth + 1}, "nt": True}})
+    for lo, hi in ([(1500, 4000), (10001, 10900), (11000, 12500)] if single else []):
+        # deeper than JSON goes: only a tree built in Go can be like this (see RULE); Go only, direct oracle
+        depth = rng.randint(lo, hi)
+        nodes = [{"Type": "string"}, {"Title": "t"}, {"Properties": [["p", 0], ["q", 1]], "Required": ["p"]}, {"Type": "number"},
+                 {"AnyOf": [2, 3]}]
+        for d in range(depth):
+            r = rng.random()
+            child = len(nodes) - 1
+            if r < 0.7 or not many:
+                nodes.append({rng.choice(single): child})
+            elif r < 0.85 or not maps:
+                nodes.append({rng.choice(many): [child]})
+            else:
+                nodes.append({rng.choice(maps): [[rng.choice(["k", "a b", "x"]), child]]})
+        ops.append({"op": "clone-go", "args": {"desc": {"nodes": nodes, "root": len(nodes) - 1}, "tail": 40},
+                    "meta": {"facts": {"n": len(nodes)}, "nt": True, "oracle": True, "deep": depth}})
     while len(ops) < n:
         # bias towards schema-bearing fields
         fl = schemaish * 3 + fields if rng.random() < 0.7 else fields
@@ -99,7 +123,35 @@ def nontrivial(o):
     return (o.get("meta") or {}).get("nt", False)
 
 
+def judge_oracle(o, go):
+    """op clone-go with `tail` (trees nested deeper than encoding/json goes): the real package against the statement, never the model."""
+    if go is None:
+        return "violation:harness", "no answer"
+    if go.get("outcome") == "harness-error":
+        return "violation:harness", str(go.get("detail"))
+    if go.get("outcome") != "ok":
+        return "violation", "CloneSchemas of a tree of %d Schema objects: %s %s" % (
+            len(o["args"]["desc"]["nodes"]), go.get("outcome"), str(go.get("detail"))[:300])
+    if go.get("shared") != 0:
+        return "violation", "the clone shares %d Schema object(s) with the original (tree of depth %s)" % (go.get("shared"), go.get("depth"))
+    if go["count"][0] != go["count"][1] or not go.get("shape"):
+        return "violation", "the clone has %d Schema objects, the original %d (same shape: %s)" % (go["count"][1], go["count"][0], go.get("shape"))
+    if go["count"][0] != len(o["args"]["desc"]["nodes"]):
+        return "violation:harness", "the tree has %d Schema objects, the descriptor %d nodes" % (go["count"][0], len(o["args"]["desc"]["nodes"]))
+    if not go.get("tail_n"):
+        return "violation:harness", "no deep subtree was observed"
+    if go.get("tail_equal") is not True:
+        return "violation", "a subtree of the deepest levels marshals differently in the clone"
+    if go.get("tail_frame") is not True:
+        return "violation", "assigning to the Schema objects of the clone changed a subtree of the deepest levels of the original"
+    if go.get("alone_resolves") and not go.get("both_resolve"):
+        return "violation", "{allOf:[s, s.CloneSchemas()]} does not resolve although {allOf:[s]} does"
+    return "agree", ""
+
+
 def judge(o, go, m):
+    if o["op"] == "clone-go":
+        return judge_oracle(o, go)
     if go is None:
         return "violation:harness", "no answer"
     if go.get("outcome") == "harness-error":
